@@ -219,6 +219,9 @@ def run(pid, tier):
     rep = vlib.Report(pid, tier)
     P = PROPS[pid]
     proved = vlib.prove(rep, P["modules"], P["theorems"], extra_targets=["spkidriver"])
+    import cfuncheck
+    if pid in cfuncheck.LINKS and pid in cfuncheck.ENABLED:
+        cfuncheck.link(rep, pid)     # translation tie: the C text of the small functions = the model, for every input
     drv = vlib.driver_path("spkidriver")
     if not os.path.exists(drv):
         ok, log = vlib.lake_build(["spkidriver"])
